@@ -9,6 +9,7 @@ import PgVerif.Model.Remote
 import PgVerif.Model.Cli
 import PgVerif.Spec.Cluster
 import PgVerif.Gen.Cluster
+import PgVerif.Model.ClusterHyp
 namespace Driver.Fam
 open PgVerif Driver
 open PgVerif.Spec (Cluster Options TableDump DatabaseDump DumpResult ColumnInfo)
@@ -181,6 +182,13 @@ def classHypOK (c : Cluster) : Bool :=
     | .ok rows => rows.map Model.infoOfRow == d.cls.live.map Model.infoOfRel
     | .error _ => false
 
+/-- run-time re-check of the hypotheses of the full theorem `C01_dump` on this case: the cluster is well-formed and
+every option combination satisfies `Model.ClusterHyp.dumpHypB` (proved to imply the theorem's `DbDumpable`
+hypothesis: `Proofs.Cluster.dumpHypB_sound`).  Inside the scope the theorem says model = spec — also when the case
+carries one of the (coarser, cluster-wide) `kf:` class tags because of a relation or database the options do not dump. -/
+def dumpHypOK (c : Cluster) (combos : List Options) : Bool :=
+  Gen.clusterWFB c && combos.all (Model.ClusterHyp.dumpHypB c)
+
 def clusterTags (c : Cluster) (combos : List Options) (spec : String) : List String :=
   let nTables : Nat := (c.content.map fun (_, d) => (d.cls.live.filter fun r => r.kind == 114).length).sum
   let nRows : Nat := (c.content.map fun (_, d) => (d.heaps.map fun h => h.2.flatten.length).sum).sum
@@ -192,6 +200,7 @@ def clusterTags (c : Cluster) (combos : List Options) (spec : String) : List Str
    s!"clspages={min clsPages 4}", s!"attpages={min attPages 4}"] ++
   (if Gen.clusterWFB c then [] else ["notwf"]) ++
   [if classHypOK c then "hyp:class=ok" else "hyp:class=FAIL"] ++
+  [if dumpHypOK c combos then "hyp:dump=ok" else "hyp:dump=no"] ++
   (if inA01z c then ["kf:A01z"] else []) ++
   (if inA03 c then ["kf:A03"] else []) ++
   (if inA04 c combos then ["kf:A04"] else []) ++
